@@ -191,8 +191,21 @@ void runC17PGN(const Scenario& sc, vf::Result& res) {
     int nBad = (int)sc.knobInt("bad_variants", 6);
     for (int v = 0; v < nBad; v++) {
         std::string bad = pgn;
-        int k = (int)r.below(5);
-        if (k == 0) { bad.resize(r.below(bad.size() + 1)); res.counters["fault_truncated_stream"]++; }
+        int k = (int)r.below(6);
+        if (k == 5) {
+            // an opening delimiter at a token boundary that is never closed (variation, comment, string, tag)
+            std::vector<size_t> bounds;
+            for (size_t i = 1; i < bad.size(); i++) if ((bad[i - 1] == ' ' || bad[i - 1] == '\n') && bad[i] != ' ' && bad[i] != '\n') bounds.push_back(i);
+            if (!bounds.empty()) {
+                size_t at = r.chance(0.5) ? bounds[r.below(bounds.size())] : bad.find("\n\n") + 2 + 0 * r.below(2);
+                if (at > bad.size()) at = bounds[0];
+                bad.insert(at, std::string(1, "({\"[;"[r.below(5)]) + (r.chance(0.5) ? " " : ""));
+                // remove closers after it so that it stays open until the end of the stream
+                if (r.chance(0.7)) for (size_t i = at + 1; i < bad.size(); i++) if (bad[i] == ')' || bad[i] == '}') bad[i] = ' ';
+            }
+            res.counters["fault_unterminated_delimiter"]++;
+        }
+        else if (k == 0) { bad.resize(r.below(bad.size() + 1)); res.counters["fault_truncated_stream"]++; }
         else if (k == 1) { for (int i = 0, n = (int)r.range(1, 30); i < n && !bad.empty(); i++) bad[r.below(bad.size())] = (char)r.below(256); res.counters["fault_corrupt_bytes"]++; }
         else if (k == 2) { for (int i = 0, n = (int)r.range(1, 10); i < n && !bad.empty(); i++) bad.insert(r.below(bad.size()), 1, "(){}[]\"$;%\\"[r.below(11)]); res.counters["fault_inserted_delimiters"]++; }
         else if (k == 3) { for (int i = 0, n = (int)r.range(1, 10); i < n && !bad.empty(); i++) bad.erase(r.below(bad.size()), (size_t)r.range(1, 5)); res.counters["fault_deleted_bytes"]++; }
